@@ -359,9 +359,8 @@ impl Serialize for AnnotationDataSet {
             //if there are any changes, we write to the standoff file
             if self.changed() {
                 //we trigger the standoff flag, this is the only way we can parametrize the serializer
-                let filename = get_filepath(filename, self.config.workdir())
-                    .expect("get_filepath must succeed");
-                let result = self.to_json_file(&filename.to_string_lossy(), self.config()); //this reinvokes this function after setting config.standoff_include
+                //(to_json_file resolves the name against the working directory itself: a relative working directory must not be applied twice)
+                let result = self.to_json_file(filename, self.config()); //this reinvokes this function after setting config.standoff_include
                 result.map_err(|e| serde::ser::Error::custom(format!("{}", e)))?;
                 self.mark_unchanged();
             }
